@@ -11,6 +11,7 @@
  *   newref | tagnewref T | number T | exist T R | check T R | length T R
  *   findall T R D      (D 1 forward, 2 backward: iterate Hfind from the start until FAIL)
  *   dump               (DD table slot by slot, private header only)
+ *   aopen T R | awrite T R L | aend | tryclose   (access elements kept open across operations; Hclose that may be refused)
  *   eof                (file_rec->f_end_off and the block/element extents it has to cover)
  */
 #include <stdio.h>
@@ -20,6 +21,13 @@
 #include "hfile_priv.h"
 
 static int32 fid = FAIL;
+static int32 aids[64];
+static int   naids = 0;
+
+static void end_all_aids(void)
+{
+    while (naids > 0) Hendaccess(aids[--naids]);
+}
 static const char *path;
 static long lastref = 0;
 
@@ -76,13 +84,41 @@ int main(int argc, char **argv)
         n = sscanf(line, "%31s %31s %31s %31s %31s", op, a[0], a[1], a[2], a[3]);
         if (n < 1) continue;
         if (!strcmp(op, "open")) {
+            end_all_aids();
             if (fid != FAIL) Hclose(fid);
             remove(path);
             fid = Hopen(path, DFACC_CREATE, (int16)atol(a[0]));
             printf("open %ld => %s\n", atol(a[0]), fid == FAIL ? "fail" : "ok");
         }
+        else if (!strcmp(op, "aopen")) { /* Hstartread, access element left open */
+            long t = atol(a[0]), r = argref(a[1]);
+            int32 aid = naids < 64 ? Hstartread(fid, (uint16)t, (uint16)r) : FAIL;
+            if (aid != FAIL) aids[naids++] = aid;
+            printf("aopen %ld %ld => %s\n", t, r, aid == FAIL ? "fail" : "ok");
+        }
+        else if (!strcmp(op, "awrite")) { /* Hstartwrite + Hwrite, access element left open (directory effect of put) */
+            long t = atol(a[0]), r = argref(a[1]), l = atol(a[2]);
+            int32 aid = (naids < 64 && l >= 1 && l <= (long)sizeof buf) ? Hstartwrite(fid, (uint16)t, (uint16)r, (int32)l) : FAIL;
+            if (aid != FAIL && Hwrite(aid, (int32)l, buf) == FAIL) { Hendaccess(aid); aid = FAIL; }
+            if (aid != FAIL) aids[naids++] = aid;
+            printf("awrite %ld %ld %ld => %s\n", t, r, l, aid == FAIL ? "fail" : "ok");
+        }
+        else if (!strcmp(op, "aend")) { /* Hendaccess of every open access element */
+            int bad = 0;
+            while (naids > 0) if (Hendaccess(aids[--naids]) == FAIL) bad = 1;
+            printf("aend => %s\n", bad ? "fail" : "ok");
+        }
+        else if (!strcmp(op, "tryclose")) { /* Hclose; when it is accepted the file is reopened by path */
+            if (Hclose(fid) == FAIL) printf("tryclose => refused\n");
+            else {
+                fid = Hopen(path, DFACC_RDWR, 0);
+                printf("tryclose => %s\n", fid == FAIL ? "fail" : "ok");
+            }
+        }
         else if (!strcmp(op, "reopen")) {
-            int rc = Hclose(fid);
+            int rc;
+            end_all_aids();
+            rc = Hclose(fid);
             fid = Hopen(path, DFACC_RDWR, 0);
             printf("reopen => %s\n", (rc == FAIL || fid == FAIL) ? "fail" : "ok");
         }
@@ -164,6 +200,7 @@ int main(int argc, char **argv)
             printf("badop %s => fail\n", op);
         fflush(stdout);
     }
+    end_all_aids();
     if (fid != FAIL) Hclose(fid);
     remove(path);
     return 0;
